@@ -296,3 +296,6 @@ brk("G11", ["C12"], "input_processing/process_model.py", "                if par
 keep("V09", ALL, [("grids.py", "if valid_start_type and valid_stop_type and start >= stop:", "if valid_start_type and valid_stop_type and stop <= start:", 1),
                   ("grids.py", "if not isinstance(n_points, int) or n_points < 1:", "if not isinstance(n_points, int) or 1 > n_points:", 1)],
      why="guards written with the operands swapped")
+
+keep("V02", ALL, kind="rename_locals", why="every local variable of every module-level function renamed (x -> x_r)")
+keep("V11", ALL, kind="strip_docs", why="docstrings stripped and source regenerated with ast.unparse")
